@@ -3,6 +3,7 @@ package lua
 import (
 	"context"
 	"fmt"
+	"math"
 	"os"
 	"strconv"
 	"strings"
@@ -161,6 +162,13 @@ func (nm LNumber) Type() LValueType { return LTNumber }
 // fmt.Formatter interface
 func (nm LNumber) Format(f fmt.State, c rune) {
 	switch c {
+	case 'e', 'E', 'f', 'F', 'g', 'G':
+		if v := float64(nm); math.IsInf(v, 0) || math.IsNaN(v) {
+			formatCNonFinite(f, c, v)
+			return
+		}
+	}
+	switch c {
 	case 'q', 's':
 		defaultFormat(nm.String(), f, c)
 	case 'c': // one byte as C printf does, not a UTF-8 encoded rune
@@ -186,6 +194,36 @@ func (nm LNumber) Format(f fmt.State, c rune) {
 		} else {
 			defaultFormat(float64(nm), f, c)
 		}
+	}
+}
+
+// formatCNonFinite renders an infinity or a NaN under a floating-point
+// conversion as C printf does: inf / nan (INF / NAN for E F G), the sign
+// flags apply, the field is padded with blanks only (Go prints +Inf, NaN).
+func formatCNonFinite(f fmt.State, c rune, v float64) {
+	s := "inf"
+	if math.IsNaN(v) {
+		s = "nan"
+	}
+	if c == 'E' || c == 'F' || c == 'G' {
+		s = strings.ToUpper(s)
+	}
+	switch {
+	case math.IsInf(v, -1):
+		s = "-" + s
+	case f.Flag('+'):
+		s = "+" + s
+	case f.Flag(' '):
+		s = " " + s
+	}
+	pad := ""
+	if w, ok := f.Width(); ok && w > len(s) {
+		pad = strings.Repeat(" ", w-len(s))
+	}
+	if f.Flag('-') {
+		fmt.Fprint(f, s+pad)
+	} else {
+		fmt.Fprint(f, pad+s)
 	}
 }
 
